@@ -25,6 +25,8 @@ FIXED = [
  ("F20", "C17", "af1f98a", "a failed slice load left the pending cache entry marked as loaded (and, follow-up 9cc216e, committed into the cache by the next load): every later access of that slice failed with 'Fail to load l2 table' or used an empty slice", "regress/C17/failed-slice-load-poisons-cache.json"),
  ("F21", "C17", "a326967", "dirty flags of slices and top-table blocks were cleared/popped before their write succeeded and failed zeroing of new clusters was ignored: after a backend error flush_meta retried successfully while metadata was still missing on disk", "regress/C17/dirty-cleared-before-write.json"),
  ("F22", "C17", "bca42b9", "dirty slices evicted from the cache were lost when their write-back failed", "regress/C17/eviction-writeback-failure-loses-slice.json"),
+ ("F23", "C15", "8e6a910", "serialize_to_buf wrote the 112-byte v3 layout for version 2 headers, so the header extensions of a v2 image were lost on re-serialisation", "regress/C15/v2-header-roundtrip-loses-extensions.json"),
+ ("F24", "C09", "70248e1", "format_qcow2 panicked (index past the end of its single refcount block) for big virtual sizes with small clusters / wide refcounts", "regress/C09/format-panic-single-refblock.json"),
  ("F11", "C03", "c069255", "writing to a zero-flagged cluster with a preallocation leaked the preallocated host cluster", "regress/C03/zero-prealloc-write-leaks.json"),
 ]
 KNOWN = [
